@@ -263,7 +263,7 @@ pub fn run(args: &Args) -> i32 {
             evals += 1;
             let all: Vec<usize> = (0..hist.len()).collect();
             for (k, detail) in oracle(st, hist, State::default_flow_id(), &all) {
-                let e = local.entry(k.clone()).or_insert(Finding { key: k, detail: format!("[first_ttl={first_ttl} history={idx:?} largest_ttls={:?}] {detail}", hist.iter().map(|r| r.largest_ttl).collect::<Vec<_>>()), replay: json!({"check":"C10","first_ttl":first_ttl,"history":idx}), weight: (hist.len(), 0), count: 0 });
+                let e = local.entry(k.clone()).or_insert_with(|| Finding { key: k, detail: format!("[first_ttl={first_ttl} history={idx:?} largest_ttls={:?}] {detail}", hist.iter().map(|r| r.largest_ttl).collect::<Vec<_>>()), replay: json!({"check":"C10","first_ttl":first_ttl,"history":idx}), weight: (hist.len(), 0), count: 0 });
                 e.count += 1;
             }
             if sample.is_none() && idx.len() == depth && ti % 13 == 0 {
@@ -273,7 +273,7 @@ pub fn run(args: &Args) -> i32 {
         });
         for (what, pn, hidx) in &stats.panics {
             let key = format!("{}:{what}", pn.key());
-            local.entry(key.clone()).or_insert(Finding { key, detail: format!("[first_ttl={first_ttl} history={hidx:?}] {what} panicked: {} at {}:{}", pn.message, pn.file, pn.line), replay: json!({"check":"C10","first_ttl":first_ttl,"history":hidx}), weight: (hidx.len(), 0), count: 1 });
+            local.entry(key.clone()).or_insert_with(|| Finding { key, detail: format!("[first_ttl={first_ttl} history={hidx:?}] {what} panicked: {} at {}:{}", pn.message, pn.file, pn.line), replay: json!({"check":"C10","first_ttl":first_ttl,"history":hidx}), weight: (hidx.len(), 0), count: 1 });
         }
         let mut a = agg.lock().unwrap();
         a.0 += stats.states;
@@ -321,7 +321,7 @@ pub fn run(args: &Args) -> i32 {
             *ch = o.world.chooser.clone();
             rounds += o.world.publishes.len() as u64;
             for (key, detail, r) in judge_real(t, &o, true_dist) {
-                let e = local.entry(key.clone()).or_insert(Finding { key, detail: format!("[{} {} first_ttl={} max_ttl={} choices={:?}] round {r}: {detail}", t.cell.name(), t.topo, t.params.first_ttl, t.params.max_ttl, ch.choices), replay: c01::replay_json("C10", t, &ch.choices), weight: (ch.deviations(), r), count: 0 });
+                let e = local.entry(key.clone()).or_insert_with(|| Finding { key, detail: format!("[{} {} first_ttl={} max_ttl={} choices={:?}] round {r}: {detail}", t.cell.name(), t.topo, t.params.first_ttl, t.params.max_ttl, ch.choices), replay: c01::replay_json("C10", t, &ch.choices), weight: (ch.deviations(), r), count: 0 });
                 e.count += 1;
             }
             local.len() < 40
